@@ -85,10 +85,10 @@ def run(ctx):
         consts = set()
         for b in f.reachable_blocks():
             if f.term(b)["k"] == "switch":
-                n = compare_norm(f.switch_cond(b))
+                n = compare_norm(f.switch_cond(b, deep=False))
                 if n and len(n[0]) == 1 and ("b[0]" in list(n[0])[0] or "first_byte" in list(n[0])[0] or "initial_b" in list(n[0])[0]):
                     consts.add((n[2], abs(n[1])))
-        ok = all(v in (0xFF, 0xFE, 0x80, 0x7F, 0x7F + 1, 1) for _, v in consts)
+        ok = all(v in (0xFF, 0xFE, 0x80, 0x7F, 0x7F + 1, 1) for _, v in consts) and (bool(consts) or p.endswith("_trusted") or "parse_triples" in p)
         ck.ob("R16b", p + "|markers", ok, "the first byte is compared only with the cons marker, the back-reference marker, 0x80 and the single-byte bound",
               site=f.where(0), detail=sorted(consts))
     users = []
